@@ -129,6 +129,17 @@ fn check_range(
                     format!("{} range_keys / range_values({:?},{:?},desc={}) at depth {} disagree with the ordered-map model", what, start.as_ref().map(|x| hex(x)), end.as_ref().map(|x| hex(x)), desc, depth),
                 );
             }
+            if got == exp && what != "base" {
+                let am = catch_unwind(AssertUnwindSafe(|| crate::storage::adaptor_mismatch(st, start.as_deref(), end.as_deref(), order, &exp)));
+                match am {
+                    Err(p) => ctx.fail("C06.panic", format!("{} range at depth {} consumed through iterator adaptors panicked: {}", what, depth, panic_message(&p))),
+                    Ok(Some(d)) => ctx.fail(
+                        "C06.range_mismatch",
+                        format!("{} range({:?},{:?},desc={}) at depth {}: {}", what, start.as_ref().map(|x| hex(x)), end.as_ref().map(|x| hex(x)), desc, depth, d),
+                    ),
+                    Ok(None) => {}
+                }
+            }
             if got != exp {
                 // classify
                 let mut dup = false;
